@@ -24,3 +24,15 @@ func GenKey(r *hc.RNG) crypto.Key {
 	}
 	return k
 }
+
+// Degenerate reports whether a key has period 8 (e.g. all bytes equal): for such keys the
+// client->server (x = 0) and server->client (x = 8) derivations coincide by construction, so
+// reflection cannot be detected by anyone; the monitors skip the reflection check for them.
+func Degenerate(k crypto.Key) bool {
+	for i := 0; i+8 < len(k); i++ {
+		if k[i] != k[i+8] {
+			return false
+		}
+	}
+	return true
+}
